@@ -415,3 +415,9 @@ package clickhouse_planner
 //@ func (*ByWithoutPlanner).processTSTable [C08]
 //@   flag checks=-index,-assert
 //@   at sql_select.NewJoin$ one-labels-row-per-series: arg0 == "ANY LEFT " || arg0 == "GLOBAL ANY LEFT "
+
+// quantile_over_time(level, ..): the window aggregate is the quantile of the level the
+// query names (rendered with the six decimals of %f, not rounded to fewer).
+//@ func (*QuantilePlanner).Process [C08]
+//@   flag checks=-index,-assert
+//@   at sql_select.NewSimpleCol$ the-level-named-in-the-query: arg1 == "value" ==> arg0 == "quantile(" + fmtf(p.Param) + ")(value)"
